@@ -334,12 +334,49 @@ func ruleC19Records(c *Ctx) {
 			}
 		}
 	}
+	// the same walk through the dictionary's own iterator: `for it := data.createIterator(); it.next(); { … }`
+	var iterNext *ssa.Call
 	if itemLoad == nil {
+		for _, in := range instrsOf(W) {
+			call, ok := in.(*ssa.Call)
+			if !ok || !blockInCycle(call.Block()) || len(call.Call.Args) == 0 {
+				continue
+			}
+			g := call.Call.StaticCallee()
+			if g == nil || !c.InPkg(g) || g.Signature.Results().Len() != 1 {
+				continue
+			}
+			if bt, isB := g.Signature.Results().At(0).Type().Underlying().(*types.Basic); !isB || bt.Kind() != types.Bool {
+				continue
+			}
+			mk, ok := call.Call.Args[0].(*ssa.Call)
+			if !ok {
+				continue
+			}
+			if h := mk.Call.StaticCallee(); h != nil && h.Signature.Recv() != nil && c.isPkgType(h.Signature.Recv().Type(), "redisDict") && len(mk.Call.Args) > 0 {
+				if _, f := loadedField(mk.Call.Args[0]); f == c.Field("dataStore", "data") {
+					if ifi, isIf := call.Block().Instrs[len(call.Block().Instrs)-1].(*ssa.If); isIf && ifi.Cond == ssa.Value(call) {
+						iterNext = call
+					}
+				}
+			}
+		}
+	}
+	if itemLoad == nil && iterNext == nil {
 		c.S.Undecided("R-C19-records", fnName(W)+":entries", c.Pos(W.Pos()), "the writer does not iterate the keyspace buckets")
 	} else {
-		blk := itemLoad.(ssa.Instruction).Block()
-		// non-nil successor of the nil test on the entry
-		start := nonNilSucc(blk, itemLoad)
+		var blk, start *ssa.BasicBlock
+		var at ssa.Instruction
+		if itemLoad != nil {
+			at = itemLoad.(ssa.Instruction)
+			blk = at.Block()
+			// non-nil successor of the nil test on the entry
+			start = nonNilSucc(blk, itemLoad)
+		} else {
+			at = iterNext
+			blk = iterNext.Block()
+			start = blk.Succs[0] // the iterator has an entry
+		}
 		if start == nil {
 			start = blk
 		}
@@ -376,9 +413,9 @@ func ruleC19Records(c *Ctx) {
 		}
 		key := fnName(W) + ":every-entry-encoded"
 		if skip {
-			c.S.Bad("R-C19-records", key, c.Pos(c.InstrPos(itemLoad.(ssa.Instruction))), "the writer can skip a stored entry without encoding it while the header announces the full count: the loader hits EOF and the whole database comes back empty")
+			c.S.Bad("R-C19-records", key, c.Pos(c.InstrPos(at)), "the writer can skip a stored entry without encoding it while the header announces the full count: the loader hits EOF and the whole database comes back empty")
 		} else {
-			c.S.OK("R-C19-records", key, c.Pos(c.InstrPos(itemLoad.(ssa.Instruction))), "no path from a non-nil entry to the next iteration bypasses Encode")
+			c.S.OK("R-C19-records", key, c.Pos(c.InstrPos(at)), "no path from a non-nil entry to the next iteration bypasses Encode")
 		}
 	}
 	// (b),(c) field sets
@@ -419,6 +456,15 @@ func ruleC19Records(c *Ctx) {
 		st := nt.Underlying().(*types.Struct)
 		var out []string
 		for i := 0; i < st.NumFields(); i++ {
+			// the fields of an embedded helper struct are fields of the object
+			if st.Field(i).Embedded() {
+				if est, ok := deref(st.Field(i).Type()).Underlying().(*types.Struct); ok {
+					for j := 0; j < est.NumFields(); j++ {
+						out = append(out, est.Field(j).Name())
+					}
+					continue
+				}
+			}
 			out = append(out, st.Field(i).Name())
 		}
 		return out
